@@ -89,7 +89,26 @@ def _mk_sync(kind):
         # frame's other managers (or to warn)
         import unittest.mock
         return unittest.mock.MagicMock()
+    if kind == "oddexit":
+        # the type's __exit__ is a callable OBJECT (no descriptor: `with` uses it as it is) that answers unknown attribute
+        # lookups with an exception of its own - a remote-object proxy, say
+        return OddExitM()
     raise AssertionError(kind)
+
+
+class _RaisingCallable:
+    def __call__(self, *a):
+        return False
+
+    def __getattr__(self, name):
+        raise RuntimeError("no attribute lookups here: %s" % name)
+
+
+class OddExitM:
+    def __enter__(self):
+        return self
+
+    __exit__ = _RaisingCallable()
 
 
 def _mk_async(kind):
@@ -240,7 +259,7 @@ def run(req):
         stats["max_active"] = max(stats["max_active"], len(want))
         stats["c_implemented_active"] += sum(1 for i in active_now if items[i][0] in C_IMPLEMENTED)
         for mode in ("trick", "ref"):
-            if mode == "ref" and any(items[i][0] == "mock" for i in made):
+            if mode == "ref" and any(items[i][0] in ("mock", "oddexit") for i in made):
                 continue      # (the referents analysis goes by the NAME of a bound exit method: documented limitation)
             set_trickery_enabled(mode == "trick")
             try:
@@ -260,7 +279,7 @@ def run(req):
                 continue
             ctxs = st.frames[0].contexts
             got = [c.obj for c in ctxs]
-            unknowable = [items[i][0] == "mock" for i in active_now]
+            unknowable = [items[i][0] in ("mock", "oddexit") for i in active_now]
             if len(got) != len(want) or any(a is not b and not (u and a is None) for a, b, u in zip(got, want, unknowable)):
                 obs.append({"kind": mode + ".managers", "at": j, "got": [type(o).__name__ for o in got],
                             "want": [type(o).__name__ for o in want]})
